@@ -157,7 +157,7 @@ V("c20-tikz-skip-element", "C20", TIKZ, "                w, h = phase_1_element(
 V("c20-end-missing", "C20", TIKZ, "    source: str = \"\\n  \".join(lines) + \"\\n\\\\end{circuitikz}\"", "    source: str = \"\\n  \".join(lines)", "fire", "to_circuitikz:framing")
 V("c20-pop-condition", "C20", SCHEM, "            if i > 0:\n                drawing.add(elm.Line(l=heights[i - 1]).up())\n                drawing.pop()", "            if i > 1:\n                drawing.add(elm.Line(l=heights[i - 1]).up())\n                drawing.pop()", "fire", "draw_parallel:push-pop")
 V("c20-latex-substitute", "C20", "circuit/circuit.py", "        return f\"Z = {latex(self.to_sympy(substitute=False))}\"", "        return f\"Z = {latex(self.to_sympy(substitute=True))}\"", "fire", "Circuit.to_latex:source")
-V("c20-sympy-skip-container", "C20", "circuit/series.py", "            if isinstance(element, Container) or isinstance(element, Connection):\n                expr += element.to_sympy(substitute=substitute, identifiers=identifiers)\n            elif isinstance(element, Element):", "            if isinstance(element, Container):\n                expr += element.to_sympy(substitute=substitute, identifiers=identifiers)\n            elif isinstance(element, Element):", "fire", "Series.to_sympy:missing")
+V("c20-sympy-skip-container", "C20", "circuit/series.py", "            if isinstance(element, Container) or isinstance(element, Connection):\n                expr += element.to_sympy(substitute=substitute, identifiers=identifiers)\n            elif isinstance(element, Element):", "            if isinstance(element, Container):\n                expr += element.to_sympy(substitute=substitute, identifiers=identifiers)\n            elif isinstance(element, Element):", "fire", "Series.to_sympy:silent-else")
 V("c20-benign-reorder-arms", "C20", SCHEM, "            if isinstance(elem_con, Element):\n                draw_element(elem_con, drawing)\n            elif isinstance(elem_con, Series):\n                draw_series(elem_con, drawing)\n            elif isinstance(elem_con, Parallel):\n                draw_parallel(elem_con, drawing)\n            else:", "            if isinstance(elem_con, Series):\n                draw_series(elem_con, drawing)\n            elif isinstance(elem_con, Element):\n                draw_element(elem_con, drawing)\n            elif isinstance(elem_con, Parallel):\n                draw_parallel(elem_con, drawing)\n            else:", "silent")
 
 # ---------------------------------------------------------------- C08
